@@ -325,12 +325,17 @@ Rollback(comp) ==
     /\ fl' = [p \in FloatParams |->
                 IF FloatKind[p] = "const" THEN ckpt.fl[p]
                 ELSE [kind |-> FloatKind[p], log |-> <<>>]]
-    \* (a factor that is None in the state leaves the live factor alone)
-    /\ aFac' = IF ckpt.inc /\ ckpt.aFac.has THEN ckpt.aFac ELSE aFac
-    /\ gFac' = IF ckpt.inc /\ ckpt.gFac.has THEN ckpt.gFac ELSE gFac
-    /\ LET rec == comp /\ ckpt.inc /\ ckpt.aFac.has /\ ckpt.gFac.has IN
+    \* (a factor that is None in the state leaves the live factor alone; the
+    \* recomputation uses the factors the instance holds AFTER the restore --
+    \* also live ones the state did not carry: a checkpoint taken before the
+    \* first factor update, rolled back to after one)
+    /\ LET na == IF ckpt.inc /\ ckpt.aFac.has THEN ckpt.aFac ELSE aFac
+           ng == IF ckpt.inc /\ ckpt.gFac.has THEN ckpt.gFac ELSE gFac
+           rec == comp /\ ckpt.inc /\ na.has /\ ng.has IN
+       /\ aFac' = na
+       /\ gFac' = ng
        /\ inv' = IF rec
-                 THEN [has |-> TRUE, A |-> ckpt.aFac, G |-> ckpt.gFac,
+                 THEN [has |-> TRUE, A |-> na, G |-> ng,
                        damp |-> IF FloatKind["damping"] = "fn"
                                 THEN [p |-> "damping", kind |-> "fn",
                                       log |-> <<>>, at |-> ckpt.steps]
